@@ -946,6 +946,16 @@ fn wide_eval(ctx: &mut Ctx, threads: u32) {
         ctx.check(got == itp, "tdd:eval-vs-interp", || {
             format!("40 vars: (x{i} {} x{j}) {} x{k}: eval {} interp {}", o1.name(), o2.name(), ch3(got), ch3(itp))
         });
+        // the same assignment with the unknown variables OMITTED (documented: unknown), the rest shuffled
+        let sparse: Vec<(u32, Option<bool>)> = args.iter().copied().filter(|x| x.1.is_some()).collect();
+        let got_sparse = from_opt(h.eval(sparse.iter().copied()));
+        ctx.check(got_sparse == itp, "tdd:eval:omitted-or-repeated-arguments", || {
+            format!("40 vars, order {order:?}: (x{i} {} x{j}) {} x{k} under {},{},{} with the unknown variables omitted: eval {} interp {}", o1.name(), o2.name(), ch3(a[i as usize]), ch3(a[j as usize]), ch3(a[k as usize]), ch3(got_sparse), ch3(itp))
+        });
+        let got_var = from_opt(vars[v as usize].eval(sparse.iter().copied()));
+        ctx.check(got_var == a[v as usize], "tdd:eval:omitted-or-repeated-arguments", || {
+            format!("40 vars, order {order:?}: var({v}) (value {}) with the unknown variables omitted evaluates to {}", ch3(a[v as usize]), ch3(got_var))
+        });
         ctx.distinct(("wide", i, j, k, o1, o2));
         if round % 512 == 511 {
             // intermediate results are dead by now; keep the store small
